@@ -62,6 +62,36 @@ CHECKS = {
              'the diffusion step normaliser is positive on padded layouts (negative witnesses for both repaired defects).',
         note=TB + 'exp is external to the executable model (Float.exp); proofs use Real.exp. Side conditions lmax>0, cutoff<1, tau!=0 are explicit.',
         design='6/C15'),
+    'C18': dict(
+        technique='Lean 4 theorems about an executable model of scales.Scale (exponent-vector homomorphism) and of the time conversions '
+                  'with an explicit rounding parameter fl (instantiated by IEEE round-to-nearest-even to 53 bits), tied to the code by '
+                  'bit-exact differential correspondence on doubles',
+        text='Machine-checked proof: the scaling factor is a monoid homomorphism from dimension vectors (factor_add / zsmul / neg, defined '
+             'exactly on covered vectors, ValueError otherwise); dimensionalize and nondimensionalize are mutually inverse, independent of '
+             'the unit of expression, and respect products, quotients, integer powers; Scale() accepts exactly one scale per base dimension; '
+             'for every rounding function with relative error <= 2^-53 per operation (and exact on integers < 2^53; the IEEE model fl53 is '
+             'proved to satisfy it), every time scale T != 0 and every whole number of seconds |s| <= 1e9, both the scalar and the array path '
+             'of dimensionalize_timedelta64 return s (negative witness on the real doubles: the pre-repair truncation turns 27 s into 26 s); '
+             'datetime <-> model time recovers every minute stamp for |minutes| <= 1e12; phase reduction lands in [0, period), is congruent, '
+             'periodic, unique and idempotent; orbital phases lie in [0, 2 pi); day-of-year <= days-in-year. The model is run bit-for-bit '
+             'against the code (timedelta path on every whole second 0..1e5 in quick) and the rounding hypothesis is sampled on the real doubles.',
+        note=TB + 'Assumed: each double operation of the conversions rounds with relative error <= 2^-53 (sampled on every run). pint unit registry is external (factor table compared). Offset units (degC) excluded by construction.',
+        design='6/C18'),
+    'C20': dict(
+        technique='Lean 4 theorems over the reals (Real.sin/cos) and over ordered fields about an executable model of radiation.py and '
+                  'held_suarez.py; every literal constant is regenerated from the source on every run (translator harness/gen/consts_c20.py '
+                  '-> DinoGen/ForcingConsts.lean) and its admissibility re-proved by decide +kernel; differential correspondence on every op',
+        text='Machine-checked proof for all latitudes, longitudes, phases, sigma levels and parameters: |sin altitude| <= 1; '
+             'S0-|dS| <= irradiance <= S0+|dS| (both attained); 0 <= flux <= S0+|dS| when |dS| <= S0, flux = 0 exactly on the night side, '
+             'normalised flux in [0,1]; invariance under integer numbers of turns of the orbital phase, synodic phase and longitude, and '
+             'flux(t) = flux at the unwrapped phases; the boundary-layer ramp is in [0,1] and zero above sigma_b, so kv >= 0 and kv = 0 there; '
+             'kt is a convex combination of ka, ks (>= 0, = ka above sigma_b); T_eq >= T_min; the surface-pressure tendency is identically zero; '
+             'the drag on (vorticity, divergence) equals -kv times them (given that to_modal/curl/div are homogeneous and the wind round trip '
+             'holds: hypotheses sampled on the real grid) and is dissipative; temperature relaxes toward T_eq at rate kt. The admissibility '
+             'hypotheses (0 <= dS < S0, harmonics 2,1,1, 0 < sigma_b < 1, 0 <= ka <= ks, ...) are certificates on the constants regenerated '
+             'from the source. Global mean = S/4 is a quadrature statement and is a labelled test only.',
+        note=TB + 'Translator harness/gen/consts_c20.py (reads module constants and dataclass defaults). sin/cos/exp/log are external to the executable model (libm at run time, Real.* in proofs).',
+        design='6/C20'),
 }
 
 NOT_YET = {
